@@ -26,6 +26,7 @@ func main() {
 	explain := flag.String("explain", "", "print a violation file")
 	list := flag.Bool("list", false, "list obligations of the property on stdout (debug)")
 	noEvidence := flag.Bool("no-evidence", false, "do not write evidence (used by the self-test on scratch copies)")
+	flag.BoolVar(&quietChild, "child", false, "run as a self-test child: print only the summary")
 	flag.Parse()
 	if *explain != "" {
 		b, err := os.ReadFile(*explain)
@@ -49,6 +50,8 @@ func main() {
 	code := run(def, *propID, *repo, *verif, *tier, seed, *list, *noEvidence, t0)
 	os.Exit(code)
 }
+
+var quietChild bool
 
 type runMeta struct {
 	LoadS float64
@@ -172,6 +175,22 @@ func run(def *propertyDef, id, repo, verif, tier string, seed int, list, noEvide
 	for _, s := range stale {
 		fmt.Printf("NOTE property=%s %s\n", id, s)
 	}
+	var thoroughInfo map[string]any
+	if tier == "thorough" && !noEvidence {
+		var extra []report.Obligation
+		thoroughInfo, extra = thoroughExtras(id, repo, verif, seed, p, ctx)
+		for _, o := range extra {
+			if o.Status == report.Violation {
+				path := filepath.Join(vdir, fmt.Sprintf("%s-%d.json", id, nv))
+				_ = report.WriteJSON(path, map[string]any{"property": id, "rule": o.Rule, "construct": o.Key, "why": o.Why})
+				fmt.Printf("  %s %s: %s\n", o.Rule, o.Key, o.Why)
+				fmt.Printf("VIOLATION property=%s replay=%s\n", id, path)
+				nv++
+			}
+			counts[o.Status]++
+			obs = append(obs, o)
+		}
+	}
 	obligations := len(obs) - counts[report.Info]
 	wall := time.Since(t0).Seconds()
 	ev := report.Evidence{PropertyID: id, Tier: tier, Seed: seed, Level: "other", WallS: wall, Violations: nv,
@@ -197,6 +216,11 @@ func run(def *propertyDef, id, repo, verif, tier string, seed int, list, noEvide
 			"trusted_base":       def.Trusted,
 			"exhaustive":         true,
 		}}
+	if thoroughInfo != nil {
+		for k, v := range thoroughInfo {
+			ev.Coverage[k] = v
+		}
+	}
 	if !noEvidence {
 		if err := report.WriteJSON(filepath.Join(verif, "evidence", id+".json"), ev); err != nil {
 			fmt.Println("cannot write evidence:", err)
